@@ -8,7 +8,9 @@
  *        trunc  : ftruncate, ftruncate64            open  : open, open64, openat, openat64
  *        lseek  : lseek, lseek64                    fsync : fsync          close : close
  *        fsop   : chdir, mkdir, mknod, symlink, fstat, fstatat, dup, lsetxattr, utimensat, fchownat, fchmodat,
- *                 readlinkat, llistxattr, lgetxattr, realpath  (the other file system calls the project makes)
+ *                 readlinkat, llistxattr, lgetxattr, realpath, opendir, fdopendir, readdir (NULL with errno set),
+ *                 fflush  (the other file system calls the project makes)
+ *        mmap   : mmap (MAP_FAILED / ENOMEM) — the pool allocator of /repo's default configuration (mempool.c)
  *      Build modes:
  *        -DVF_WRAP     link-time wrappers (__wrap_X / __real_X) for ASan builds of the tools:
  *                      link with  -Wl,--wrap=X  for every X in VF_WRAP_SYMS (tools/checks/c13.py)
@@ -78,9 +80,9 @@
 #undef strdup
 #undef strndup
 
-enum { C_WRITE, C_READ, C_TRUNC, C_OPEN, C_LSEEK, C_FSYNC, C_CLOSE, C_FSOP, C_MALLOC, C_CALLOC, C_REALLOC, C_STRDUP, C_NCLASS };
+enum { C_WRITE, C_READ, C_TRUNC, C_OPEN, C_LSEEK, C_FSYNC, C_CLOSE, C_FSOP, C_MALLOC, C_CALLOC, C_REALLOC, C_STRDUP, C_MMAP, C_NCLASS };
 static const char *const cname[C_NCLASS] = { "write", "read", "trunc", "open", "lseek", "fsync", "close", "fsop",
-					     "malloc", "calloc", "realloc", "strdup" };
+					     "malloc", "calloc", "realloc", "strdup", "mmap" };
 enum { S_IN, S_OUT, S_NSIDE };
 
 static long cnt[C_NCLASS][S_NSIDE];
@@ -125,13 +127,14 @@ static void *fire_stack[VF_STK_MAX];
 static int fire_depth = -1;
 static long fire_nsites = -1;
 static int fire_thread;
-enum { P_CHDIR_OK = 1, P_CHDIR_FAIL, P_UNLINK_HIT, P_UNLINK_MISS, P_UNLINK_FAIL, P_REALPATH_OK, P_REALPATH_FAIL, P_NPSEUDO };
+enum { P_CHDIR_OK = 1, P_CHDIR_FAIL, P_UNLINK_HIT, P_UNLINK_MISS, P_UNLINK_FAIL, P_REALPATH_OK, P_REALPATH_FAIL,
+       P_FFLUSH_OK, P_FFLUSH_FAIL, P_NPSEUDO };
 static const char *const pseudo_name[P_NPSEUDO] = { "?", "chdir:ok", "chdir:fail", "unlink:hit", "unlink:miss", "unlink:fail",
-						     "realpath:ok", "realpath:fail" };
+						     "realpath:ok", "realpath:fail", "fflush:ok", "fflush:fail" };
 
 static void vf_report(void)
 {
-	char buf[8192];
+	char buf[12288];
 	int n = 0, c, s, i, fd;
 
 	if (report_path == NULL)
@@ -929,6 +932,86 @@ ssize_t NAME(lgetxattr)(const char *path, const char *k, void *b, size_t n)
 	GET_REAL(lgetxattr);
 	FSOP_PATH(path, "lgetxattr", -1);
 	return REAL(lgetxattr)(path, k, b, n);
+}
+
+/* ------------------------------------------------------------------ directory reading (class fsop) */
+#include <dirent.h>
+#include <sys/mman.h>
+
+DECL_REAL(DIR *, opendir, (const char *))
+DIR *NAME(opendir)(const char *path)
+{
+	GET_REAL(opendir);
+	FSOP_PATH(path, "opendir", NULL);
+	return REAL(opendir)(path);
+}
+
+DECL_REAL(DIR *, fdopendir, (int))
+DIR *NAME(fdopendir)(int fd)
+{
+	GET_REAL(fdopendir);
+	FSOP_FD(fd, "fdopendir", NULL);
+	return REAL(fdopendir)(fd);
+}
+
+/* a failing readdir returns NULL with errno set (the end of the directory: NULL, errno untouched) */
+DECL_REAL(struct dirent *, readdir, (DIR *))
+struct dirent *NAME(readdir)(DIR *d)
+{
+	GET_REAL(readdir);
+	FSOP_FD(dirfd(d), "readdir", NULL);
+	return REAL(readdir)(d);
+}
+
+DECL_REAL(struct dirent64 *, readdir64, (DIR *))
+struct dirent64 *NAME(readdir64)(DIR *d)
+{
+	GET_REAL(readdir64);
+	FSOP_FD(dirfd(d), "readdir64", NULL);
+	return REAL(readdir64)(d);
+}
+
+/* ------------------------------------------------------------------ stdio: the explicit flush of standard output
+   (project code that calls fflush at all is code that wants to know whether its output arrived) */
+DECL_REAL(int, fflush, (FILE *))
+int NAME(fflush)(FILE *f)
+{
+	int e, r;
+
+	GET_REAL(fflush);
+	if (f != stdout)
+		return REAL(fflush)(f);
+	if ((e = vf_decide(C_FSOP, side_of_fd(1), "fflush")) != 0) {
+		site_pseudo(P_FFLUSH_FAIL);
+		errno = e;
+		return EOF;
+	}
+	r = REAL(fflush)(f);
+	site_pseudo(r == 0 && !ferror(f) ? P_FFLUSH_OK : P_FFLUSH_FAIL);
+	return r;
+}
+
+/* ------------------------------------------------------------------ the pool allocator's mmap (class mmap) */
+DECL_REAL(void *, mmap, (void *, size_t, int, int, int, off_t))
+void *NAME(mmap)(void *a, size_t n, int prot, int fl, int fd, off_t o)
+{
+	GET_REAL(mmap);
+	if (vf_decide(C_MMAP, S_IN, "mmap")) {
+		errno = ENOMEM;
+		return MAP_FAILED;
+	}
+	return REAL(mmap)(a, n, prot, fl, fd, o);
+}
+
+DECL_REAL(void *, mmap64, (void *, size_t, int, int, int, off64_t))
+void *NAME(mmap64)(void *a, size_t n, int prot, int fl, int fd, off64_t o)
+{
+	GET_REAL(mmap64);
+	if (vf_decide(C_MMAP, S_IN, "mmap64")) {
+		errno = ENOMEM;
+		return MAP_FAILED;
+	}
+	return REAL(mmap64)(a, n, prot, fl, fd, o);
 }
 
 #endif /* VF_WRAP || VF_PRELOAD */
